@@ -281,13 +281,13 @@ def _gaussian_com():
     return "%chk=w.chk\n#p hf/sto-3g\n\nwater\n\n0 1\nO  0.1250  0.2500  0.3750\nH  0.8125  0.2500  0.3750\nH  0.1250  0.9375  0.3750\n\n"
 
 
-def _molden(angs):
+def _molden(angs, style="Angs"):
+    """style: how the unit is spelled on the [Atoms] line (the Molden documentation writes `(Angs)` / `(AU)`)"""
     txt = (DATA / "h_sonly_sph_cfour.molden").read_text()
-    if angs:
-        txt = re.sub(r"\[Atoms\]\s*AU", "[Atoms] Angs", txt, flags=re.I)
-        if "Angs" not in txt:
-            raise ValueError("could not switch the molden probe to Angs")
-    return txt
+    new, n = re.subn(r"\[Atoms\]\s*AU", "[Atoms] " + (style if angs else style), txt, flags=re.I)
+    if n != 1:
+        raise ValueError("could not set the unit of the molden probe")
+    return new
 
 
 def _water():
@@ -416,8 +416,12 @@ def load_probes():
     add("fchk", "dipole", "fchk", g_dip, file="water_sto3g_hf_g03.fchk", after=(r"^Dipole Moment", 1))
     add("charmm", "atcoords", "charmm", g_coords, file="crambin.crd", span=(6, 9), max_moved=1, f32=True)
     add("charmm", "atmasses", "charmm", g_mass, file="crambin.crd", span=(6, 9), max_moved=1)
-    add("molden", "atcoords", "molden", g_coords, text=lambda: _molden(False), name="p.molden", after=(r"(?i)\[Atoms\]", 1))
-    add("molden-angs", "atcoords", "molden", g_coords, text=lambda: _molden(True), name="p.molden", after=(r"(?i)\[Atoms\]", 1))
+    add("molden", "atcoords", "molden", g_coords, text=lambda: _molden(False, "AU"), name="p.molden", after=(r"(?i)\[Atoms\]", 1))
+    add("molden-angs", "atcoords", "molden", g_coords, text=lambda: _molden(True, "Angs"), name="p.molden", after=(r"(?i)\[Atoms\]", 1))
+    # the spellings of the Molden format description and of other programs
+    add("molden-paren-au", "atcoords", "molden", g_coords, text=lambda: _molden(False, "(AU)"), name="p.molden", after=(r"(?i)\[Atoms\]", 1))
+    add("molden-paren-angs", "atcoords", "molden", g_coords, text=lambda: _molden(True, "(Angs)"), name="p.molden", after=(r"(?i)\[Atoms\]", 1))
+    add("molden-upper-angs", "atcoords", "molden", g_coords, text=lambda: _molden(True, "ANGS"), name="p.molden", after=(r"(?i)\[Atoms\]", 1))
     add("molekel", "atcoords", "molekel", g_coords, file="h2_sto3g.mkl", after=(r"^\$COORD", 2), digit="last")
     add("mwfn", "atcoords", "mwfn", g_coords, file="ch3_hf_sto3g_fchk_multiwfn3.7.mwfn", after=(r"^\$Centers", 2))
     add("wfn", "atcoords", "wfn", g_coords, file="h2o_sto3g.wfn", span=(2, 5))
